@@ -109,11 +109,12 @@ def load_known(pid):
 
 
 def _match_known(sig, known):
-    """A known entry matches a signature exactly, or by prefix when it ends with '*'."""
+    """An entry matches a signature exactly, or as an fnmatch pattern (only '*' is special)."""
+    import fnmatch
     if sig in known:
         return known[sig]
     for k, e in known.items():
-        if k.endswith('*') and sig.startswith(k[:-1]):
+        if '*' in k and fnmatch.fnmatchcase(sig, k.replace('[', '[[]')):
             return e
     return None
 
@@ -241,8 +242,9 @@ def run(pid, tier, seed, workers=None, max_cases=None):
             lines.append(f'VIOLATION property={pid} replay={path}')
             lines.append(f'  signature={sig} cases={len(fs)} detail={f["detail"][:400]}')
             exit_code = max(exit_code, 1)
-        if sig in fixed:
-            lines.append(f'  (this signature is recorded as fixed by {fixed[sig].get("commit")}: the defect has returned)')
+        fx = _match_known(sig, fixed)
+        if fx is not None:
+            lines.append(f'  (this signature is recorded as fixed by {fx.get("commit")}: the defect has returned)')
 
     if agg['harness_errors']:
         idx, msg = agg['harness_errors'][0]
